@@ -187,9 +187,13 @@ end Ref
     contain the prompt either) -/
 def nextOk (c : Case) (n : NextObs) : Bool :=
   let line := Shell.lineOf c.next ++ [Tty.CR]
-  if forbidden (blacklist c) line then n.val == .err "illegal" && n.argv.isNone
+  if forbidden (blacklist c) line then
+    (match n.val with | .err t => t == "illegal" | _ => false) && n.argv.isNone
   else if !promptOk (prompt c) (Tty.cook c.next.out ++ prompt c) (some 0) || 256 ≤ c.next.status then true
-  else n.argv == some c.next.args && n.val == .rc c.next.status (text (Tty.cook c.next.out))
+  else n.argv == some c.next.args &&
+    (match n.val with
+     | .rc st out => st == c.next.status && out == text (Tty.cook c.next.out)
+     | _ => false)
 
 /-- the scenario after `run()` was entered -/
 def entered (c : Case) (o : Obs) : Bool :=
